@@ -193,8 +193,60 @@ theorem decW_encW {w : List (List Nat)} {Nr : Nat} {M : List Nat} (hNr : 1 ≤ N
   rw [invShiftRows_shiftRows (subBytes_st hs0).1, invSubBytes_subBytes hs0.2]
   exact addRoundKey_addRoundKey (by rw [hM.1, h0.1])
 
-/-- the converse direction: state of `dec` after the initial AddRoundKey and the inverse rounds Nr-1 … Nr-n -/
-def decState (w : List (List Nat)) (Nr : Nat) (C : List Nat) (n : Nat) : List Nat :=
-  ((List.range' (Nr - n) n).reverse).foldl (decRound w) (addRoundKey C (roundKey w Nr))
+/-! the converse direction -/
+
+theorem dec_fold_st {w : List (List Nat)} {n : Nat} {y : List Nat} (hy : St y) (hk : KeysOk w n) :
+    St ((List.range' 1 n).reverse.foldl (decRound w) y) := by
+  obtain ⟨e, h⟩ := dec_loop (w := w) n y hy hk
+  rw [e]; exact h
+
+/-- one round undoes one inverse round "shifted by InvShiftRows/InvSubBytes" -/
+theorem encRound_undo {w : List (List Nat)} {y : List Nat} {r : Nat} (hy : St y) (hk : St (roundKey w r)) :
+    encRound w (invSubBytes (invShiftRows (decRound w y r))) r = invSubBytes (invShiftRows y) := by
+  have hz : St (decRound w y r) := decRound_st hy hk
+  unfold encRound
+  rw [subBytes_invSubBytes (invShiftRows_st hz).2, shiftRows_invShiftRows hz.1]
+  unfold decRound
+  have h1 : St (invSubBytes (invShiftRows y)) := invSubBytes_st (invShiftRows_st hy)
+  rw [mixColumns_invMixColumns (addRoundKey_st h1 hk), addRoundKey_addRoundKey (by rw [h1.1, hk.1])]
+
+theorem enc_loop_undo {w : List (List Nat)} :
+    ∀ n (y : List Nat), St y → KeysOk w n →
+      (List.range' 1 n).foldl (encRound w)
+          (invSubBytes (invShiftRows ((List.range' 1 n).reverse.foldl (decRound w) y)))
+        = invSubBytes (invShiftRows y) := by
+  intro n
+  induction n with
+  | zero => intro y _ _; rfl
+  | succ n ih =>
+    intro y hy hk
+    have hk' : KeysOk w n := fun r hr => hk r (by omega)
+    have hkk : St (roundKey w (n + 1)) := hk _ (Nat.le_refl _)
+    have hy' : St (decRound w y (n + 1)) := decRound_st hy hkk
+    have e : (List.range' 1 (n + 1)).reverse.foldl (decRound w) y
+        = (List.range' 1 n).reverse.foldl (decRound w) (decRound w y (n + 1)) := by
+      rw [List.range'_concat, List.reverse_append]
+      simp [Nat.add_comm]
+    rw [e, List.range'_concat, List.foldl_append, ih _ hy' hk']
+    simp only [List.foldl_cons, List.foldl_nil, Nat.one_mul]
+    rw [Nat.add_comm 1 n]
+    exact encRound_undo hy hkk
+
+theorem encW_decW {w : List (List Nat)} {Nr : Nat} {C : List Nat} (hNr : 1 ≤ Nr) (hk : KeysOk w Nr) (hC : St C) :
+    encW w Nr (decW w Nr C) = C := by
+  have h0 := hk 0 (by omega)
+  have hN := hk Nr (Nat.le_refl _)
+  have hk' : KeysOk w (Nr - 1) := fun r hr => hk r (by omega)
+  have hy : St (addRoundKey C (roundKey w Nr)) := addRoundKey_st hC hN
+  have hz := dec_fold_st hy hk'
+  have hzz : St (invSubBytes (invShiftRows ((List.range' 1 (Nr - 1)).reverse.foldl (decRound w) (addRoundKey C (roundKey w Nr))))) :=
+    invSubBytes_st (invShiftRows_st hz)
+  have e1 : decW w Nr C = addRoundKey (invSubBytes (invShiftRows
+      ((List.range' 1 (Nr - 1)).reverse.foldl (decRound w) (addRoundKey C (roundKey w Nr))))) (roundKey w 0) := rfl
+  unfold encW
+  simp only []
+  rw [e1, addRoundKey_addRoundKey (by rw [hzz.1, h0.1]), enc_loop_undo _ _ hy hk',
+    subBytes_invSubBytes (invShiftRows_st hy).2, shiftRows_invShiftRows hy.1]
+  exact addRoundKey_addRoundKey (by rw [hC.1, hN.1])
 
 end Proofs.Aes
